@@ -142,7 +142,8 @@ def check_main(prop, tier, seed, a):
     deadline = None
     dl = a.deadline if a.deadline is not None else (240.0 if tier == 'quick' else 3000.0)
     deadline = t0 + dl
-    pool = Pool(a.workers, task_timeout=600.0, init=cp.worker_init)
+    pool = Pool(a.workers, task_timeout=600.0 if tier == 'quick' else 1800.0,
+                init=cp.worker_init)
     print(f'[{prop}] tier={tier} seed={seed} tasks={len(tasks)} workers={pool.nworkers}',
           flush=True)
     results, errors = pool.run(cp.run_task, tasks, deadline=deadline)
